@@ -264,8 +264,9 @@ def main():
         for s in rep.get("samples", [])[:1]:
             samples.append(dict(harness=job["h"], params=job.get("p", {}), inputs=dict(zip([d.split(" in ")[0] for d in rep.get("var_domains", [])], s["inputs"])), branch_decisions=s["trace_len"], obligations=sorted(set(s["obligations"]))[:6]))
         cl = rep.get("closure", "")
-        ckey = "proved" if cl == "proved" else ("failed" if cl.startswith("failed") else ("unknown" if cl.startswith("unknown") else "skipped"))
+        ckey = "proved" if cl.startswith("proved") else ("failed" if cl.startswith("failed") else ("unknown" if cl.startswith("unknown") else "skipped"))
         closure[ckey] += 1
+        closure["inputs_on_explored_paths_under_ieee_only"] = closure.get("inputs_on_explored_paths_under_ieee_only", 0) + rep.get("closure_ieee_only", 0)
         if ckey == "failed":
             inconclusive.append("%s: closure check failed - the explorer missed a path: %s" % (label, cl))
         second["asked"] += rep.get("second_opinions", 0)
@@ -369,7 +370,7 @@ def main():
             pending_work_items=agg["pending_work"], diverged_runs=agg["diverged_runs"],
             harnesses=per_h, known_findings_seen=sorted(seen_known), inconclusive=inconclusive[:10],
             second_solver=dict(second, solver=SOLVER2 or "none", note="every path whose obligations the primary solver (z3 4.8.12, incremental within one run) reports as proved is re-asked, self-contained and in a fresh context, to a second solver (z3 5.1); a model from the second solver is treated as a counterexample candidate and replayed natively; skipped for path conditions with sqrt / uninterpreted terms"),
-            closure_check=dict(closure, note="per harness run that closed: fresh solver proves domain /\\ not(pc_1 \\/ ... \\/ pc_n) unsat, i.e. every input of the domain follows an explored path; skipped for runs that did not close, whose path conditions mention sqrt / uninterpreted terms, or whose input variables differ between paths"),
+            closure_check=dict(closure, note="per harness run that closed: fresh solver proves domain /\\ not(pc_1 \\/ ... \\/ pc_n) unsat, i.e. every input of the domain follows an explored path; skipped for runs that did not close, whose path conditions mention sqrt / uninterpreted terms, or whose input variables differ between paths; a counter-model of that query is re-run on the real code and only counts as a missed path if its trace is not one of the explored ones (with rounded terms in a path condition exact arithmetic and IEEE can put an input on different sides of a decision): inputs_on_explored_paths_under_ieee_only counts those"),
             cross_process_replays=dict(path_witnesses=agg_x["witnesses"], fresh_processes=agg_x["processes"], note="native f64 re-execution of path witnesses in fresh processes (new SipHash keys) under rayon pools of 1, 8 and 3 threads; outputs compared bit for bit with the exploration's; then again (pools 1, 1, 8, 3) with a fixed non-dyadic offset on every input (SYMX_JITTER=1), those processes compared with each other"),
         ),
         assumptions=sorted(assumptions) + ["bounded: shapes, input grid and budgets as listed per harness; outside them nothing is claimed",
